@@ -49,7 +49,7 @@ class HexStrWS(HexStr):
 def word_fn():
     from btc_hd_wallet.bip39_wordlist import word_list
     n = len(word_list)
-    return z3.Function(f"WORD_{n}_{abs(hash(tuple(word_list))) % 10 ** 8}", z3.IntSort(), PStr), n, len(set(word_list)) == n
+    return z3.Function(f"WORD_{n}_{__import__("zlib").crc32(repr(tuple(word_list)).encode())}", z3.IntSort(), PStr), n, len(set(word_list)) == n
 
 
 def spec_sentence(ent_rope):
